@@ -35,7 +35,8 @@ MANIFEST = dict(
          "decrunch_gzip hands exactly the deflate stream to the decoder and returns the payload for every legal combination of "
          "FTEXT/FHCRC/FEXTRA/FNAME/FCOMMENT/reserved bits (C08_gzip_framing, _stream, _roundtrip); the archive walks select the first "
          "regular non-excluded member for every placement of excluded/directory/unsupported companions (C08_member_selection, "
-         "_member_unpack). FULLY MODELLED CODECS with round-trip theorems: compress(1) LZW as decoded by uncompress.c (input() macro = bit "
+         "_member_unpack); the exclude globs are modelled on full member paths with fnmatch flags 0 (`*` runs across '/'): a name "
+         "accepted by a `*…` pattern stays excluded behind every directory prefix (C08_exclude_path_prefix). FULLY MODELLED CODECS with round-trip theorems: compress(1) LZW as decoded by uncompress.c (input() macro = bit "
          "extraction C08_lzw_input_macro, group alignment C08_lzw_align, decode(encode p) = p for maxbits 10..16, block mode on/off, every "
          "CLEAR policy and phrase-length bound: C08_lzw_roundtrip); PowerPacker PP20 as decoded by ppdepack.c (PP_READ_BITS = pending-bit "
          "stream C08_pp_read_bits, decrunch_pp(ppRender tokens) = ppExpand tokens for EVERY legal token stream of literal runs and matches — "
@@ -61,7 +62,10 @@ MANIFEST = dict(
          "streams of the independent python writers, on streams/archives written by the LEAN encoders of the theorems (lzwEncode, ppEncode, "
          "arcWrap / arcfsWrap + rle90Enc, zipWrap, lhaWrap, lzxWrap, mmcmpWrap; the zip writer is refereed by python zipfile) and on mutated streams, compared with the Lean "
          "decoders (for LHA also the repository's LH1/5/6/7 archives, header walk only). A direct "
-         "oracle loads archives produced by independent encoders through the real library.",
+         "oracle loads archives produced by independent encoders through the real library; it includes payload boundary classes "
+         "(modules and raw payloads that begin and end with runs of 1..6 equal bytes of the same value, all-zero / all-0xFF, 0/2/4 "
+         "sample bytes, lengths 1..4) through every codec, and excluded `*.ext` members inside sub-directories in front of a module "
+         "that sits in a sub-directory (zip, LZX, LHA, ARC, ArcFS).",
     note="PARTIAL: the entropy decoders inflate, bzip2, LZMA2, LH1/5/6/7, LZX, ARC squeeze/crunch/squash, SQSH, S404 and the MMCMP bit coder "
          "are parameters of the model, not proved (exercised by the oracle against independent encoders only); LZW of compress(1), PowerPacker "
          "and RLE90 are modelled and proved completely (PowerPacker for every legal token stream; bit_buffer/todo are unbounded naturals in the "
@@ -85,7 +89,7 @@ MANIFEST = dict(
 
 REQUIRED = ["Xmp.Container." + n for n in (
     "C08_md5_chunking", "C08_md5_chunking_list", "C08_md5_read_loop", "C08_md5_wf", "C08_md5_spec", "C08_gzip_framing", "C08_gzip_stream",
-    "C08_gzip_roundtrip", "C08_member_selection", "C08_member_unpack", "C08_rle90_roundtrip", "C08_sniff_limits",
+    "C08_gzip_roundtrip", "C08_member_selection", "C08_member_unpack", "C08_exclude_path_prefix", "C08_rle90_roundtrip", "C08_sniff_limits",
     "C08_dispatch_gzip", "C08_tests_exclusive", "C08_dispatch_of_test", "C08_pipeline_of_decrunch", "C08_pipeline_gzip",
     "C08_pipeline_partial", "C08_not_packed",
     "C08_lzw_input_macro", "C08_lzw_align", "C08_lzw_roundtrip", "C08_pipeline_compress",
@@ -98,7 +102,8 @@ WRAPS = ["-Wl,--wrap=libxmp_exclude_match", "-Wl,--wrap=libxmp_tinfl_decompress_
 
 EXCLUDED_NAMES = ["README", "readme", "ReadMe", "file_id.diz", "FILE_ID.DIZ", "info.nfo", "X.NFO", "manual.doc", "a.txt",
                   "NOTES.TXT", "setup.exe", "run.com", "x.readme", "index.htm", "index.html", "about.info", "READ.ME.TXT"]
-ARC_EXCLUDED = ["README", "readme", "ReadMe", "FILE_ID.DIZ", "INFO.NFO", "A.TXT", "notes.txt", "RUN.COM", "X.EXE", "InfoText"]
+ARC_EXCLUDED = ["README", "readme", "ReadMe", "FILE_ID.DIZ", "INFO.NFO", "A.TXT", "notes.txt", "RUN.COM", "X.EXE", "InfoText",
+                "d/A.TXT", "x/i.nfo", "a/b/r.com", "docs/f.diz"]
 MODULE_NAMES = ["song.mod", "test.xm", "MUSIC.S3M", "a", "tune.it", "mod.title", "track01", "x.y.z"]
 
 
@@ -181,6 +186,102 @@ def aaaa_mod(rng):
     return bytes(p)
 
 
+def boundary_mod(rng, b, k, j, words=None):
+    """M.K. module that BEGINS with a run of exactly k bytes `b` (title) and ENDS with a run of exactly j bytes `b`
+    (tail of the last sample): run-length / block-sorting stages of the codecs see the same byte at both ends"""
+    p = bytearray(gen_mod(rng, npat=1, total_words=words or rng.choice([8, 9, 40, 700])))
+    other = (b + 1 + rng.randrange(200)) % 256 or 1
+    if other == b:
+        other = (b + 7) % 256
+    p[0:20] = bytes(rng.choice(b"abcdefgh XYZ") for _ in range(20))
+    p[0:k] = bytes([b]) * k
+    if k < 20:
+        p[k] = other
+    if j:
+        p[-j:] = bytes([b]) * j
+        p[-j - 1] = other
+    return bytes(p)
+
+
+def boundary_mods(rng, quick):
+    """(name, bytes): begin/end runs of every length 1..6 of the same byte, plus modules with 0, 2 and 4 sample bytes"""
+    combos = [(k, j) for k in range(1, 7) for j in range(1, 7)]
+    out = []
+    if quick:
+        picks = [(3, 1), (3, 2), (3, 3), (4, 1)] + rng.sample([c for c in combos if c[0] != 3], 4)
+        for k, j in picks:
+            out.append(("gen/bnd-00-%d-%d" % (k, j), boundary_mod(rng, 0, k, j)))
+        out.append(("gen/bnd-ff-3-2", boundary_mod(rng, 0xff, 3, 2)))
+        out.append(("gen/bnd-61-6-6", boundary_mod(rng, 0x61, 6, 6)))
+    else:
+        for b in (0, 0xff, 0x61):
+            for k, j in combos:
+                out.append(("gen/bnd-%02x-%d-%d" % (b, k, j), boundary_mod(rng, b, k, j)))
+    for w in (1, 2):
+        out.append(("gen/bnd-words%d" % w, gen_mod(rng, npat=1, total_words=w)))
+    return out
+
+
+def boundary_payloads(rng, quick):
+    """raw payload classes for the codec-level oracle (not modules): equal-byte runs of length 1..6 at both ends (same
+    byte), all-zero / all-0xFF, lengths 1..4"""
+    combos = [(k, j) for k in range(1, 7) for j in range(1, 7)]
+    out = []
+    for b in (0, 0xff, 0x41):
+        for k, j in (rng.sample(combos, 5) + [(3, 1), (3, 3), (4, 2)] if quick else combos):
+            n = rng.choice([0, 1, 50, 3000])
+            mid = bytearray(rng.getrandbits(8) for _ in range(n))
+            if mid:
+                if mid[0] == b:
+                    mid[0] ^= 0x55
+                if mid[-1] == b:
+                    mid[-1] ^= 0x55
+            out.append(("run%d-%02x-run%d" % (k, b, j), bytes([b]) * k + bytes(mid) + bytes([b]) * j))
+    for b in (0, 0xff):
+        for n in ([1, 3, 4, 255, 256, 4096] if quick else [1, 2, 3, 4, 5, 6, 255, 256, 257, 4095, 4096, 70000]):
+            out.append(("all-%02x-%d" % (b, n), bytes([b]) * n))
+    for n in (1, 2, 3, 4):
+        out.append(("len%d" % n, bytes(rng.getrandbits(8) for _ in range(n))))
+    return out
+
+
+def corr_boundary(ck, exe, workdir, quick):
+    """codec-level oracle on the boundary payload classes: every stream is written by an INDEPENDENT encoder (python
+    bz2 / zlib / lzma / zipfile, own LZW, PP20, LHA, ARC, ArcFS, LZX, MMCMP writers) and must come back byte-exact
+    from the REAL depack() entry point"""
+    rng = ck.rng
+    items, meta = [], []
+    for name, p in boundary_payloads(rng, quick):
+        streams = [("bzip2", W.bzip2(p, rng.choice([1, 9]))), ("bzip2", W.bzip2(p, 9)),
+                   ("xz", W.xz(p, check=rng.choice(["crc32", "crc64", "none"]))),
+                   ("gzip", W.gzip_member(p, level=rng.choice([1, 6, 9]))[0]),
+                   ("compress", W.compress_lzw(p, rng.randint(10, 16), rng.random() < 0.7, 0)),
+                   ("zip", W.zip_archive([("a.mod", p, None)], method=rng.choice(["deflated", "stored"]))),
+                   ("lha", W.lha_archive([("a.mod", p)], rng.choice([0, 1, 2]))),
+                   ("lzx", W.lzx_archive([("a.mod", p)])),
+                   ("arc", W.arc_archive([("A.MOD", p, 3)], rng.random() < 0.5)),
+                   ("arcfs", W.arcfs_archive([("a/mod", p, 0x83)]))]
+        if len(p) < (1 << 16):
+            streams.append(("pp", W.pp20(p, use_matches=True, max_match=rng.choice([5, 40, 300]))))
+        if len(p) >= 16:
+            streams.append(("mmcmp", W.mmcmp_stored(p, block_size=rng.choice([64, 5000]), subs_per_block=rng.choice([1, 3]))))
+        for codec, st in streams:
+            items.append((codec, st))
+            meta.append((codec, name, p))
+    real = run_dp(ck, exe, workdir, "boundary", items)
+    if real is None:
+        return
+    ck.bump("boundary_payload_streams", len(items))
+    for (codec, name, p), (_, st), r in zip(meta, items, real):
+        if r != "D ok %d %016x" % (len(p), fnv1a(p)):
+            ck.violation("oracle:%s:boundary" % codec, {"how": "python3 tools/check.py C08 --replay <this file>", "dp": codec,
+                                                      "stream_hex": st.hex() if len(st) <= 65536 else None,
+                                                      "payload_hex": p.hex() if len(p) <= 65536 else None, "class": name},
+                         "the %s depacker does not return the payload of class %s (%d bytes) written by an independent encoder: %s" % (
+                             codec, name, len(p), r))
+    ck.cov["traces_validated_against_impl"] += 0
+
+
 def generated_payloads(ck, n):
     out = [("gen/tiny-mod", tiny_mod()), ("gen/aaaa-mod", aaaa_mod(ck.rng))]
     # lengths that exercise the MD5 buffering: total = 1084 + 1024*npat + 2*words
@@ -207,11 +308,21 @@ def rnd_name(rng):
     return rng.choice(MODULE_NAMES)
 
 
-def companions(rng, names=EXCLUDED_NAMES, maxn=3):
-    k = rng.choice([0, 0, 1, 1, 2, maxn])
+# names that one of the `*…` exclude patterns accepts: they stay excluded behind any directory prefix (fnmatch flags 0:
+# `*` runs across '/'); `README` & co. have no `*` and only match the whole member path
+STAR_EXCLUDED = ["file_id.diz", "FILE_ID.DIZ", "info.nfo", "X.NFO", "manual.doc", "a.txt", "NOTES.TXT", "setup.exe", "run.com",
+                 "x.readme", "index.htm", "index.html", "about.info", "READ.ME.TXT"]
+SUBDIRS = ["docs/", "a/b/", "Docs/txt/", "x/"]
+
+
+def companions(rng, names=EXCLUDED_NAMES, maxn=3, subdirs=0.0, force_k=None):
+    """excluded companion members; with probability `subdirs` a `*.ext` name is put into a sub-directory"""
+    k = force_k if force_k is not None else rng.choice([0, 0, 1, 1, 2, maxn])
     out = []
     for _ in range(k):
         nm = rng.choice(names)
+        if subdirs and rng.random() < subdirs:
+            nm = rng.choice(SUBDIRS) + rng.choice([x for x in names if x in STAR_EXCLUDED] or STAR_EXCLUDED)
         out.append((nm, bytes(rng.getrandbits(8) for _ in range(rng.randint(0, 40))) or b"x"))
     return out
 
@@ -305,12 +416,15 @@ def make_archive(rng, fmt, p, xzmax, force=None):
         a = W.xz(p, dict_size=ds)
         r["dict_size"] = ds
     elif fmt == "zip":
-        pre, post = split_companions(rng, companions(rng))
+        sub = force.get("subdir", False)
+        pre, post = split_companions(rng, companions(rng, subdirs=0.5))
+        if sub:
+            pre = companions(rng, subdirs=1.0, force_k=rng.randint(1, 3)) + pre
         if rng.random() < 0.25:
             pre = [("docs/", b"")] + pre
         nm = rnd_name(rng)
-        if rng.random() < 0.2:
-            nm = "mods/" + nm
+        if sub or rng.random() < 0.3:
+            nm = rng.choice(["mods/", "a/b/", "x/"]) + nm
         meth = rng.choice(["deflated", "stored"])
         members = [(n, d, rng.choice([None, "stored", "deflated"])) for n, d in pre] + [(nm, p, None)] + \
                   [(n, d, None) for n, d in post]
@@ -353,9 +467,14 @@ def make_archive(rng, fmt, p, xzmax, force=None):
         r.update(dict(maxbits=mb, block_mode=bm, clear_every=ce))
     elif fmt == "lha":
         lv = rng.choice([0, 1, 2])
-        pre, post = split_companions(rng, companions(rng))
+        sub = force.get("subdir", False)
+        pre, post = split_companions(rng, companions(rng, subdirs=0.4))
+        if sub:
+            pre = companions(rng, subdirs=1.0, force_k=rng.randint(1, 3)) + pre
         osid = rng.choice([b"U", b"M", b"A"])
         nm = rnd_name(rng)
+        if sub or rng.random() < 0.3:
+            nm = rng.choice(["mods/", "a/b/"]) + nm
         members = pre + [(nm, p)] + post
         if rng.random() < 0.2:
             members = [("dir/", b"")] + members
@@ -370,15 +489,20 @@ def make_archive(rng, fmt, p, xzmax, force=None):
         a = W.arc_archive(members, spark)
         r.update(dict(spark=spark, method=meth, members=[m[0] for m in members]))
     elif fmt == "arcfs":
-        pre, post = split_companions(rng, companions(rng, ["ReadMe", "README", "readme", "A.TXT", "InfoText", "x.doc"]))
+        pre, post = split_companions(rng, companions(rng, ["ReadMe", "README", "readme", "A.TXT", "InfoText", "x.doc", "d/A.TXT", "a/b/x.doc"]))
         meth = rng.choice([0x82, 0x83])
         nm = rng.choice(["song/mod", "test/xm", "a", "module"])
         members = [(n, d, rng.choice([0x82, 0x83])) for n, d in pre] + [(nm, p, meth)] + [(n, d, 0x82) for n, d in post]
         a = W.arcfs_archive(members, pad_entries=rng.choice([0, 0, 1, 3]))
         r.update(dict(method=meth, members=[m[0] for m in members]))
     elif fmt == "lzx":
-        pre, post = split_companions(rng, companions(rng))
+        sub = force.get("subdir", False)
+        pre, post = split_companions(rng, companions(rng, subdirs=0.5))
+        if sub:
+            pre = companions(rng, subdirs=1.0, force_k=rng.randint(1, 3)) + pre
         nm = rnd_name(rng)
+        if sub or rng.random() < 0.3:
+            nm = rng.choice(["mods/", "a/b/", "x/"]) + nm
         a = W.lzx_archive(pre + [(nm, p)] + post, comment=b"" if rng.random() < 0.7 else b"a comment")
         r.update(dict(members=[m[0] for m in pre + [(nm, p)] + post]))
     elif fmt == "pp":
@@ -569,6 +693,14 @@ HEADS = [b"PK\x03\x04", b"PK00PK\x03\x04", b"\x1f\x8b\x08", b"\x1f\x9d\x90", b"B
          b"\x1a\x02-lh5-\0", b"MO3", b"Rar!"]
 
 
+def model_globs():
+    """exclude globs of the committed Lean model (XmpModel/Gen/Depackers.lean)"""
+    txt = open(os.path.join(vlib.VERIF, "lean", "XmpModel", "Gen", "Depackers.lean")).read()
+    body = txt[txt.index("def excludeGlobs"):]
+    body = body[:body.index("\n]")]
+    return [bytes(int(x) for x in m.split(",")) for m in re.findall(r"^\s*\[([0-9, ]+)\]", body, re.M)]
+
+
 def corr_magic(ck, exe, workdir, n):
     rng = ck.rng
     bufs = []
@@ -591,11 +723,17 @@ def corr_magic(ck, exe, workdir, n):
                 b[k] = 0
         bufs.append(bytes(b[:ln]))
     names = []
-    globs = gen_depackers.extract()["globs"]
+    try:
+        globs = gen_depackers.extract()["globs"]
+    except gen_depackers.TranslatorError:
+        globs = model_globs()        # translator refused the source (already recorded): use the model's globs
     for g in globs:
         s = bytes(g).replace(b"\\", b"")
         base = s.replace(b"*", b"abc")
         names += [base, s.replace(b"*", b""), s.replace(b"*", b"dir/x."), base + b"x", b"x" + base, base[:-1], base.swapcase()]
+    for d in SUBDIRS + ["/", "a//", "./"]:
+        for nm in EXCLUDED_NAMES + MODULE_NAMES:
+            names.append((d + nm).encode())
     for i in range(n // 4):
         names.append(bytes(rng.choice(b"abAB.*?\\/!rReE DdMm") for _ in range(rng.randint(0, 12))).replace(b"\0", b"a"))
     names = [x for x in names if b"\0" not in x and b"\n" not in x]
@@ -1403,6 +1541,7 @@ def run(ck):
     corr_lzx(ck, exe, workdir, 40 if quick else 500)
     corr_mmcmp(ck, exe, workdir, 40 if quick else 500)
     corr_gzip(ck, exe, workdir, 40 if quick else 400)
+    corr_boundary(ck, exe, workdir, quick)
 
     # -- payload pool: corpus modules that load identically bare-by-path and from memory, plus generated ones
     maxsize = 150000 if quick else 600000
@@ -1412,6 +1551,8 @@ def run(ck):
     ck.rng.shuffle(rest)
     cand = fixed + rest[:(70 if quick else 400)]
     gens = generated_payloads(ck, 8 if quick else 30)
+    first_boundary = len(gens)
+    gens = gens + boundary_mods(ck.rng, quick)
     pool = []
     cases = []
     for i, f in enumerate(cand):
@@ -1455,7 +1596,7 @@ def run(ck):
         raise vlib.InfraError("payload pool too small")
 
     # -- archives
-    narch = 320 if quick else 6000
+    narch = 380 if quick else 6500
     arch = {}
     tiny = next(p for p in pool if p["path"].endswith("gen0.mod"))
     plan = []
@@ -1470,6 +1611,17 @@ def run(ck):
     for cl in clens:
         plan.append((tiny, "zip", {"comment_len": cl}))
         plan.append((ck.rng.choice(pool), "zip", {"comment_len": cl}))
+    # payload boundary classes (equal-byte runs of length 1..6 at both ends, 0/2/4 sample bytes) through every codec
+    bnd = [p for p in pool if p["gen"] and int(re.search(r"gen(\d+)\.mod$", p["path"]).group(1)) >= first_boundary]
+    BND_FORMATS = ["bzip2", "bzip2-cli", "gzip", "xz", "compress", "pp", "zip", "lha", "arc", "arcfs", "lzx", "mmcmp"]
+    for p in bnd:
+        for fmt in (["bzip2", "bzip2-cli"] + ck.rng.sample(BND_FORMATS[2:], 3) if quick else BND_FORMATS):
+            plan.append((p, fmt, None))
+    ck.note("boundary_modules", len(bnd))
+    # excluded `*.ext` members inside sub-directories in front of a module that sits in a sub-directory itself
+    for fmt in ("zip", "lzx", "lha"):
+        for _ in range(3 if quick else 12):
+            plan.append((tiny if ck.rng.random() < 0.5 else ck.rng.choice(pool), fmt, {"subdir": True}))
     # old-format compress(1) streams (no block mode): code 256 is an ordinary table entry there
     for _ in range(2 if quick else 6):
         plan.append((aaaa, "compress", {"block_mode": False}))
@@ -1532,7 +1684,7 @@ def run(ck):
             c["oracle_failed"] = True
             small = len(c["abytes"]) < 100 and fmt != "bare" and any(f.startswith("load_rc=-3") for f in fails)
             sig = "decrunch:archive<100bytes" if small else "oracle:%s:%s" % (fmt, fails[0].split("=")[0])
-            if fmt == "zip" and c["recipe"].get("comment_len", 0) >= 4000 and any(f.startswith("load_rc=") for f in fails):
+            if fmt == "zip" and c["recipe"].get("comment_len", 0) >= 4000 and any(f.startswith("load_rc=-5") for f in fails):
                 sig = "zip:comment:eocd-scan"      # the end-of-central-directory scan lost a record behind a long comment
             fails_by[sig] = fails_by.get(sig, 0) + 1
             ck.violation(sig, {"how": "python3 tools/check.py C08 --replay <this file>", "archive": c["apath"], "payload": c["ppath"],
